@@ -412,19 +412,27 @@ def issorted(x, dim, order='ascending'):
 def sort(x, key, order='ascending'):
     if isinstance(x, DataArray):
         raise C.Unsupported('sort DataArray')
-    if not isinstance(key, str) or len(x.dims) != 1:
-        raise C.Unsupported('sort')
-    items = list(x._a)
-    out = []
-    for it in items:  # insertion sort with forking comparisons
+    if isinstance(key, str):
+        dim = key
+        if len(x.dims) != 1:
+            raise C.Unsupported('sort of n-d variable by dim')
+        keyvals = list(x._a)
+    else:
+        if len(key.dims) != 1:
+            raise DimensionError('sort key must be 1-d')
+        dim = key.dims[0]
+        keyvals = list(key._a)
+    # insertion sort of indices with forking comparisons (stable)
+    perm = []
+    for i, kv in enumerate(keyvals):
         k = 0
-        while k < len(out) and bool(out[k] <= it if order == 'ascending' else out[k] >= it):
+        while k < len(perm) and bool(keyvals[perm[k]] <= kv if order == 'ascending' else keyvals[perm[k]] >= kv):
             k += 1
-        out.insert(k, it)
-    a = np.empty((len(out),), dtype=object)
-    for i, t in enumerate(out):
-        a[i] = t
-    return x._new(a)
+        perm.insert(k, i)
+    ax = x.dims.index(dim)
+    a = np.take(x._a, perm, axis=ax)
+    var = None if x._v is None else np.take(x._v, perm, axis=ax)
+    return x._new(a, var=var)
 
 
 def midpoints(x, dim=None):
